@@ -61,7 +61,12 @@ func (r *runner) checkSnaps() {
 		}
 		r.c.Stat("snapshot_checks", 1)
 		if !same {
-			r.c.Emit("direct snapshot FAIL %s returned=%s now=%s history=%s", s.what, vals(s.copy), vals(s.slice), strings.Join(r.hist, ","))
+			h := make([]string, len(r.uni))
+			for k, u := range r.uni {
+				h[k] = hexs(u)
+			}
+			r.c.Emit("direct snapshot FAIL %s returned=%s now=%s history=%s uni=%s", strings.ReplaceAll(s.what, " ", "_"),
+				vals(s.copy), vals(s.slice), strings.Join(r.hist, ","), strings.Join(h, ","))
 			s.copy = append([]interface{}{}, s.slice...) // report each change once
 		}
 	}
